@@ -1,0 +1,8 @@
+//go:build !verif
+
+// Package verifhook provides yield points for verification harnesses.
+// Without the "verif" build tag every function is empty.
+package verifhook
+
+// Yield does nothing unless built with the "verif" tag.
+func Yield(site string) {}
